@@ -150,6 +150,12 @@ func WorkerMain(id, tier string, shardIdx, shardN int, outBase string) int {
 	if v, _ := strconv.ParseInt(os.Getenv("VERIF_MAXEXEC"), 10, 64); v > 0 {
 		cfg.MaxExec = v // debugging aid: cap executions per worker (evidence then says exhaustive:false)
 	}
+	if tier == "thorough" && t.DeadlineSec == 0 {
+		// Safety net for the deep tiers: a worker still exploring after 25 minutes stops, the run
+		// exits 0 and the evidence says exhaustive:false with the cap that was hit. (The quick tier,
+		// which has no deadline, is the complete exploration of its smaller bounds.)
+		t.DeadlineSec = 1500
+	}
 	if t.DeadlineSec > 0 {
 		cfg.Deadline = time.Now().Add(time.Duration(t.DeadlineSec) * time.Second)
 	}
